@@ -8,6 +8,7 @@ import (
 	"fmt"
 	"os"
 	"path/filepath"
+	"runtime"
 	"sort"
 	"strconv"
 	"sync/atomic"
@@ -205,6 +206,7 @@ func WorkerMain(t *testing.T) {
 		os.WriteFile(outPath+".tmp", b, 0o644)
 		os.Rename(outPath+".tmp", outPath)
 	}
+	lastFlush := time.Now()
 	for idx := from; idx < to; idx++ {
 		if budget > 0 && time.Since(start) > budget {
 			break
@@ -275,12 +277,14 @@ func WorkerMain(t *testing.T) {
 				v.Scenario = min
 			}
 			v.Repro = hasSig(t, p, v.Scenario, v.Sig)
+			v.Scenario.SetInt("gomaxprocs", runtime.GOMAXPROCS(0)) // part of the environment of the run: replay uses it
 			v.Replay = SaveReplay(&v)
 			bySig[v.Sig] = len(res.Violations)
 			res.Violations = append(res.Violations, v)
 			flush(false)
 		}
-		if res.Runs%256 == 0 {
+		if res.Runs%16 == 0 || time.Since(lastFlush) > 2*time.Second {
+			lastFlush = time.Now()
 			flush(false)
 		}
 	}
